@@ -70,6 +70,7 @@ pub fn run(env: &mut Env) -> Outcome {
             },
         };
         let mut p = ServerParams::default_for(sel);
+        p.tls12 = ctx.chance("tls12_server", 1, 3);
         p.cc_kind = match ctx.choose("cc_kind", 10) {
             0..=4 => CcKind::Response,
             5 => CcKind::Failure(*ctx.pick("fail_code", &[1u32, 2, 3, 4, 5, 6, 0, 0xffffffff])),
